@@ -1,6 +1,12 @@
 import Lemmas.Conv128AsFloatUlp2
+import Lemmas.Conv128FloatBack
 import Lemmas.Conv128RatValue
 import Lemmas.Conv128Misc
+import Lemmas.Conv128Words
+import Lemmas.Conv128Fmt
+import Lemmas.Conv128Source
+import Model.Conv128Load
+import Generated.C02Facts
 /-! # C02 — 128-bit integers convert and print losslessly and saturate when out of range
 
 Property theorems only.  The executable model is `Model/Conv128.lean` (namespace `Conv`) over the binary64 model
@@ -263,6 +269,299 @@ theorem fromBigInt_asBigInt (z : Int) :
   · intro h1 h2
     rw [I128.asBigInt_eq, I128.fromBigInt_spec, if_neg (by omega), if_pos h2]
 
+/-! ## fmt.Formatter: what `Format` writes denotes the exact value and reads back through `Scan`
+
+`U128.format st ch u` / `I128.format st ch i` (`Model/Conv128Fmt.lean`) = `AsBigInt` followed by `(*big.Int).Format`,
+transcribed statement for statement; `st : FmtState` is what the `fmt.State` reports (flags `+ - # blank 0`, width,
+precision).  The driver runs them against the real method (called with such a state, and through `fmt.Sprintf`) on every
+line of the area `format`, and `fmtToken` (skip blanks, run to the next blank) stands for `ScanState.Token`. -/
+
+/-- **the formatted text denotes the exact value**: for every verb that has a base (`b o O d s v x X`), every flag
+    combination, width and precision (except the empty rendering of 0 under precision 0) the text is
+    `[blanks][sign][base prefix][zeros][digits][blanks]`, the digits are digits of the verb's base whose Horner value —
+    with or without the zero padding — is exactly `|value|`, and the sign is `-` exactly for negative values -/
+theorem format_denotes (st : FmtState) (ch : Char) (base : Nat) (hb : verbBase ch = some base) (u : U128) (i : I128)
+    (hu : ¬ (st.prec = some 0 ∧ u.toNat = 0)) (hi : ¬ (st.prec = some 0 ∧ i.toInt = 0)) :
+    (∃ l zr r D, U128.format st ch u = some (blanks l ++ fmtSign st false ++ fmtPrefix st ch ++ zeroPad zr ++ D ++ blanks r) ∧
+      (∀ c ∈ D, digitVal c < base) ∧ digitsVal base D = u.toNat ∧ digitsVal base (zeroPad zr ++ D) = u.toNat) ∧
+    (∃ l zr r D, I128.format st ch i =
+        some (blanks l ++ fmtSign st (decide (i.toInt < 0)) ++ fmtPrefix st ch ++ zeroPad zr ++ D ++ blanks r) ∧
+      (∀ c ∈ D, digitVal c < base) ∧ digitsVal base D = i.toInt.natAbs ∧
+      digitsVal base (zeroPad zr ++ D) = i.toInt.natAbs ∧ (fmtSign st (decide (i.toInt < 0)) = ['-'] ↔ i.toInt < 0)) := by
+  constructor
+  · have hz : ¬ (st.prec = some 0 ∧ u.asBigInt = 0) := by
+      rw [U128.asBigInt_eq]; intro ⟨a, b⟩; exact hu ⟨a, by omega⟩
+    obtain ⟨l, zr, r, D, h1, h2, h3, h4⟩ := bigFormat_denotes st ch base hb u.asBigInt hz
+    have hn : ¬ (u.asBigInt < 0) := by rw [U128.asBigInt_eq]; omega
+    rw [decide_eq_false hn] at h1
+    rw [U128.asBigInt_eq] at h3 h4
+    exact ⟨l, zr, r, D, h1, h2, by simpa using h3, by simpa using h4⟩
+  · have hz : ¬ (st.prec = some 0 ∧ i.asBigInt = 0) := by rw [I128.asBigInt_eq]; exact hi
+    obtain ⟨l, zr, r, D, h1, h2, h3, h4⟩ := bigFormat_denotes st ch base hb i.asBigInt hz
+    rw [I128.asBigInt_eq] at h3 h4
+    have h1' : I128.format st ch i =
+        some (blanks l ++ fmtSign st (decide (i.toInt < 0)) ++ fmtPrefix st ch ++ zeroPad zr ++ D ++ blanks r) := by
+      unfold I128.format; rw [h1, I128.asBigInt_eq]
+    refine ⟨l, zr, r, D, h1', h2, h3, h4, ?_⟩
+    unfold fmtSign
+    by_cases hneg : i.toInt < 0
+    · rw [decide_eq_true hneg]; simp [hneg]
+    · rw [decide_eq_false hneg]
+      cases st.plus <;> cases st.space <;> simp [hneg]
+
+/-- without flags, width and precision the verbs `d`, `v` and `s` (what `Print`, `Println`, `%v` use) write exactly
+    the text `String()` returns — so `string_parse_roundtrip_*` and `toString_denotes_*` speak about that text too -/
+theorem format_plain_is_string (ch : Char) (hch : ch = 'd' ∨ ch = 'v' ∨ ch = 's') (u : U128) (i : I128) :
+    U128.format plainState ch u = some u.toString ∧ I128.format plainState ch i = some i.toString := by
+  unfold U128.format I128.format
+  rw [bigFormat_plain ch hch, bigFormat_plain ch hch, U128.toString_eq, I128.toString_eq, U128.asBigInt_eq,
+    I128.asBigInt_eq]
+  constructor
+  · unfold intDigits; rw [if_neg (by omega)]; simp
+  · rfl
+
+/-- **`format_reads_back`**: for the six base verbs `b o O d x X`, EVERY combination of the flags `+ - # blank 0`, every
+    width and every precision (except the empty rendering of 0 under precision 0), and every value of both types: the
+    text `Format` writes, cut to the token `fmt`'s scanner delivers, is read back by `Scan` with the same verb as the
+    identical value.  (So `%#x` / `%#X` / `%#b` / `%O` texts that already carry a prefix, `%#o` with its leading `0`,
+    zero padding by width or precision, and left or right blank padding all survive the round trip.) -/
+theorem format_reads_back (st : FmtState) (ch : Char) (hch : IsBaseVerb ch) (u : U128) (i : I128)
+    (hu : ¬ (st.prec = some 0 ∧ u.toNat = 0)) (hi : ¬ (st.prec = some 0 ∧ i.toInt = 0)) :
+    (∃ text, U128.format st ch u = some text ∧ U128.scan (fmtToken text) ch = some u) ∧
+    (∃ text, I128.format st ch i = some text ∧ I128.scan (fmtToken text) ch = some i) := by
+  constructor
+  · have hz : ¬ (st.prec = some 0 ∧ u.asBigInt = 0) := by
+      rw [U128.asBigInt_eq]; intro ⟨a, b⟩; exact hu ⟨a, by omega⟩
+    obtain ⟨text, h1, h2⟩ := bigFormat_reads_back st ch hch u.asBigInt hz
+    exact ⟨text, h1, scan_of_parse_u u _ ch (by rw [h2, U128.asBigInt_eq])⟩
+  · have hz : ¬ (st.prec = some 0 ∧ i.asBigInt = 0) := by rw [I128.asBigInt_eq]; exact hi
+    obtain ⟨text, h1, h2⟩ := bigFormat_reads_back st ch hch i.asBigInt hz
+    exact ⟨text, h1, scan_of_parse_i i _ ch (by rw [h2, I128.asBigInt_eq])⟩
+
+/-- `format_reads_back` for `%v` and `%s` (what `Sprint` / `Sscan` use): with any of the flags `+ - # blank` and any
+    width, but without zero padding (no `0` flag, no precision), the token is read back by `Scan` as the identical value.
+    (With zero padding the decimal text would be taken for an octal literal by `FromString` — `CONTRAST` below.) -/
+theorem format_reads_back_v (st : FmtState) (ch : Char) (hch : ch = 'v' ∨ ch = 's') (hp : st.prec = none)
+    (hz : st.zero = false) (u : U128) (i : I128) :
+    (∃ text, U128.format st ch u = some text ∧ U128.scan (fmtToken text) ch = some u) ∧
+    (∃ text, I128.format st ch i = some text ∧ I128.scan (fmtToken text) ch = some i) := by
+  constructor
+  · obtain ⟨text, h1, h2⟩ := bigFormat_reads_back_v st ch hch hp hz u.asBigInt
+    exact ⟨text, h1, scan_of_parse_u u _ ch (by rw [h2, U128.asBigInt_eq])⟩
+  · obtain ⟨text, h1, h2⟩ := bigFormat_reads_back_v st ch hch hp hz i.asBigInt
+    exact ⟨text, h1, scan_of_parse_i i _ ch (by rw [h2, I128.asBigInt_eq])⟩
+
+/-- CONTRAST (why `format_reads_back_v` excludes zero padding, and why `scanText` must drop it under `%d`): the text
+    `%04v` prints for 10 is `0010`; read back with the verb `v` it is the octal literal 8, with the verb `d` it is 10.
+    And without the prefix handling of `scanText`, i.e. `FromString` applied to the token, `%x` of 16 (`10`) would read
+    back as 10. -/
+theorem format_zero_padding_contrast :
+    U128.format ⟨false, false, false, false, true, some 4, none⟩ 'v' ⟨0#64, 10#64⟩ = some ['0', '0', '1', '0'] ∧
+    U128.scan ['0', '0', '1', '0'] 'v' = some ⟨0#64, 8#64⟩ ∧ U128.scan ['0', '0', '1', '0'] 'd' = some ⟨0#64, 10#64⟩ ∧
+    U128.format ⟨false, false, false, false, false, none, none⟩ 'x' ⟨0#64, 16#64⟩ = some ['1', '0'] ∧
+    U128.fromString ['1', '0'] = some ⟨0#64, 10#64⟩ ∧ U128.scan ['1', '0'] 'x' = some ⟨0#64, 16#64⟩ := by decide
+
+/-- non-vacuity: `%#+8x` of −255 is `   -0xff` with the sign before the prefix; `%-06X` pads on the right; the verb
+    `c` is not supported; the empty rendering is real: `%.0d` of 0 prints nothing, and nothing does not scan -/
+example : I128.format ⟨true, false, true, false, false, some 8, none⟩ 'x' ⟨0xffffffffffffffff#64, 0xffffffffffffff01#64⟩ =
+    some [' ', ' ', ' ', '-', '0', 'x', 'f', 'f'] ∧
+    U128.format ⟨false, true, false, false, true, some 6, none⟩ 'X' ⟨0#64, 0xbeef#64⟩ = some ['B', 'E', 'E', 'F', ' ', ' '] ∧
+    U128.format ⟨false, false, false, false, false, none, none⟩ 'c' ⟨0#64, 1#64⟩ = none ∧
+    U128.format ⟨false, false, false, false, false, none, some 0⟩ 'd' U128.zero = some [] ∧
+    U128.scan (fmtToken []) 'd' = none := by decide
+
+/-- CONTRAST (why `FromBigInt` compares before converting): without the `LessThan(maxInt128AsUint128)` /
+    `LessThan(minInt128AsAbsUint128)` tests the imported magnitude would simply be reinterpreted — 2^127 would become
+    `MinInt128` instead of saturating to `MaxInt128`, and −(2^127 + 1) would become `MaxInt128` instead of `MinInt128`;
+    and without the saturating arms of the `len(words)` switch (three 64-bit words taken for their low two) 2^128 + 5
+    would become 5.  The real functions give the nearest bound in all three cases. -/
+theorem fromBigInt_contrast :
+    (wordsToU128 (2^127)).asInt128.toInt = -(2^127) ∧ (I128.fromBigInt (2^127)).toInt = 2^127 - 1 ∧
+    (wordsToU128 (2^127 + 1)).asInt128.neg.toInt = 2^127 - 1 ∧ (I128.fromBigInt (-(2^127 + 1))).toInt = -(2^127) ∧
+    (wordsToU128W 64 ((natToWords 64 (2^128 + 5)).take 2)).toNat = 5 ∧
+    (U128.fromBigIntW 64 false (natToWords 64 (2^128 + 5))).toNat = 2^128 - 1 := by decide
+
+/-! ## big.Int at the level of `big.Word`s (`Bits()`), for both sizes of `big.Word`
+
+`U128.fromBigIntW W neg ws` / `I128.fromBigIntW` transcribe the `switch len(words)` of the two `FromBigInt` functions with
+`intSize == W`; `U128.toBigIntW W dest u` / `I128.toBigIntW` transcribe `ToBigInt` into a destination whose `Bits()` are
+`dest` (grow with `append`, cut `words[:n]`, store, `SetBits`).  The driver runs them for W = 32 and W = 64 on every line
+of the area `words`, on the `Bits()` the real `big.Int` has (`natToWords`, compared word for word).  A `big.Int` is a sign
+and a slice of words that is bounded (`BoundedWords W`: every word below 2^W) and normalised (`NormalWords`: no
+most-significant zero word); `bigVal` is its value. -/
+
+/-- `Bits()` of a magnitude, as the driver feeds them: bounded, normalised, and denoting the magnitude — the hypotheses
+    of the word-level theorems below describe exactly these slices -/
+theorem bits_wellformed (W : Nat) (hW : W = 32 ∨ W = 64) (n : Nat) :
+    wordsVal W (natToWords W n) = n ∧ BoundedWords W (natToWords W n) ∧ NormalWords (natToWords W n) := by
+  have hW0 : 0 < W := by rcases hW with rfl | rfl <;> omega
+  obtain ⟨a, b, c, _⟩ := natToWords_facts W hW0 n
+  exact ⟨a, b, c⟩
+
+/-- **`FromBigInt` on words = `FromBigInt` on the value**, both word sizes, both types: the `len(words)` switch (arms
+    0, 1, 2 and saturation from 3 words on for 64-bit words; arms 0 to 4 with the 32-bit halves joined by shift-and-or and
+    saturation from 5 words on for 32-bit words) computes the value-level import that `fromBigInt_exact_or_saturates_*`
+    speaks about -/
+theorem fromBigIntW_eq_value (W : Nat) (hW : W = 32 ∨ W = 64) (neg : Bool) (ws : List Nat)
+    (hb : BoundedWords W ws) (hn : NormalWords ws) :
+    U128.fromBigIntW W neg ws = U128.fromBigInt (bigVal W (neg, ws)) ∧
+    I128.fromBigIntW W neg ws = I128.fromBigInt (bigVal W (neg, ws)) :=
+  ⟨U128.fromBigIntW_eq W hW neg ws hb hn, I128.fromBigIntW_eq W hW neg ws hb hn⟩
+
+/-- constructor from `big.Int`, stated on the words: exact when the value lies in the type's range, the nearest bound
+    when it does not — for `intSize == 32` as for `intSize == 64` -/
+theorem fromBigIntW_exact_or_saturates (W : Nat) (hW : W = 32 ∨ W = 64) (neg : Bool) (ws : List Nat)
+    (hb : BoundedWords W ws) (hn : NormalWords ws) :
+    ((U128.fromBigIntW W neg ws).toNat : Int) =
+      (let z := bigVal W (neg, ws); if z < 0 then 0 else if z < 2^128 then z else 2^128 - 1) ∧
+    (I128.fromBigIntW W neg ws).toInt =
+      (let z := bigVal W (neg, ws); if z < -(2^127) then -(2^127) else if z < 2^127 then z else 2^127 - 1) := by
+  obtain ⟨h1, h2⟩ := fromBigIntW_eq_value W hW neg ws hb hn
+  rw [h1, h2]
+  exact ⟨U128.fromBigInt_spec _, I128.fromBigInt_spec _⟩
+
+/-- **`ToBigInt` into ANY destination** (any number of words, any content, any sign), both word sizes: afterwards the
+    destination is a well-formed `big.Int` (bounded, normalised words; a sign only on a non-zero value) whose value is
+    exactly the `Uint128` / `Int128` -/
+theorem toBigIntW_any_destination (W : Nat) (hW : W = 32 ∨ W = 64) (dest : List Nat) (u : U128) (i : I128) :
+    (wordsVal W (U128.toBigIntW W dest u) = u.toNat ∧ BoundedWords W (U128.toBigIntW W dest u) ∧
+      NormalWords (U128.toBigIntW W dest u)) ∧
+    (bigVal W (I128.toBigIntW W dest i) = i.toInt ∧ BoundedWords W (I128.toBigIntW W dest i).2 ∧
+      NormalWords (I128.toBigIntW W dest i).2 ∧ ((I128.toBigIntW W dest i).1 = true → i.toInt < 0)) :=
+  ⟨U128.toBigIntW_spec W hW dest u, I128.toBigIntW_spec W hW dest i⟩
+
+/-- the big.Int rendering, loaded back word by word, yields the identical value — whatever the destination held before
+    and whichever of the two word sizes the platform has -/
+theorem toBigIntW_fromBigIntW (W : Nat) (hW : W = 32 ∨ W = 64) (dest : List Nat) (u : U128) (i : I128) :
+    U128.fromBigIntW W false (U128.toBigIntW W dest u) = u ∧
+    I128.fromBigIntW W (I128.toBigIntW W dest i).1 (I128.toBigIntW W dest i).2 = i := by
+  obtain ⟨⟨v, b, n⟩, ⟨vi, bi, ni, _⟩⟩ := toBigIntW_any_destination W hW dest u i
+  constructor
+  · rw [(fromBigIntW_eq_value W hW false _ b n).1]
+    have : bigVal W (false, U128.toBigIntW W dest u) = u.asBigInt := by
+      unfold bigVal; simp only [Bool.false_eq_true, if_false]; rw [v]; rfl
+    rw [this, U128.fromBigInt_asBigInt]
+  · rw [(fromBigIntW_eq_value W hW _ _ bi ni).2, vi, ← I128.asBigInt_eq, I128.fromBigInt_asBigInt]
+
+/-- CONTRAST: `ToBigInt` without the cut `words = words[:n]` (the model's `toBigIntWordsGen false`) is wrong for EVERY
+    value as soon as the destination held more than `n` words — off by 2^128 on a destination that held 2^128 -/
+theorem toBigInt_without_cut_is_wrong (u : U128) :
+    wordsVal 64 (toBigIntWordsGen false 64 (natToWords 64 (2^128)) u) ≠ u.toNat ∧
+    wordsVal 32 (toBigIntWordsGen false 32 (natToWords 32 (2^128)) u) ≠ u.toNat := by
+  have e64 : natToWords 64 (2^128) = [0, 0, 1] := by decide
+  have e32 : natToWords 32 (2^128) = [0, 0, 0, 0, 1] := by decide
+  rw [e64, e32, toBigInt_no_cut_64, toBigInt_no_cut_32]
+  omega
+
+/-- non-vacuity: 2^64 + 255 has the words `[255, 1]` (64-bit) and `[255, 0, 1]` (32-bit) and imports to hi = 1, lo = 255
+    under both switches; −2^127 exports to the sign and the words `[0, 2^63]` over a destination of five words -/
+example : natToWords 64 (2^64 + 255) = [255, 1] ∧ natToWords 32 (2^64 + 255) = [255, 0, 1] ∧
+    U128.fromBigIntW 64 false [255, 1] = ⟨1#64, 255#64⟩ ∧ U128.fromBigIntW 32 false [255, 0, 1] = ⟨1#64, 255#64⟩ ∧
+    I128.toBigIntW 64 [7, 7, 7, 7, 7] I128.min = (true, [0, 2^63]) := by decide
+
+/-! ## the remaining entry points: `AsBigFloat`, `Float64()`, `UnmarshalYAML` with its callback, `Scan` with its state
+    (`Model/Conv128Load.lean`; driver lines `asbigfloat`, `float64m`, `yamlcb`, `scantok` of the area `conv`) -/
+
+/-- `AsBigFloat` (`new(big.Float).SetInt(AsBigInt())`: precision = the larger of the bit length and 64, then rounding to
+    that precision) holds the exact value of every `Uint128` / `Int128`: the precision always suffices -/
+theorem asBigFloat_exact (u : U128) (i : I128) :
+    (u.asBigFloat.2 = (u.toNat : Int) ∧ 64 ≤ u.asBigFloat.1 ∧ bitLen u.toNat ≤ u.asBigFloat.1) ∧
+    (i.asBigFloat.2 = i.toInt ∧ 64 ≤ i.asBigFloat.1 ∧ bitLen i.toInt.natAbs ≤ i.asBigFloat.1) := by
+  have key : ∀ x : Int, (bigFloatSetInt x).2 = x ∧ 64 ≤ (bigFloatSetInt x).1 ∧ bitLen x.natAbs ≤ (bigFloatSetInt x).1 := by
+    intro x
+    unfold bigFloatSetInt roundToPrec
+    simp only []
+    refine ⟨?_, Nat.le_max_right _ _, Nat.le_max_left _ _⟩
+    rw [if_pos (Nat.le_max_left _ _)]
+  constructor
+  · have := key u.asBigInt
+    rw [U128.asBigInt_eq] at this
+    unfold U128.asBigFloat; rw [U128.asBigInt_eq]
+    simpa using this
+  · have := key i.asBigInt
+    rw [I128.asBigInt_eq] at this
+    unfold I128.asBigFloat; rw [I128.asBigInt_eq]
+    exact this
+
+/-- CONTRAST: with a fixed precision of 64 bits instead (`new(big.Float).SetPrec(64).SetInt`) 2^64 + 1 would be rounded to
+    2^64; the modelled `SetInt` keeps it -/
+theorem asBigFloat_contrast : roundToPrec 64 (2^64 + 1) = 2^64 ∧ (bigFloatSetInt (2^64 + 1)).2 = 2^64 + 1 := by decide
+
+/-- `UnmarshalYAML` and `Scan` as methods on a receiver: the rendered text (the decimal text through the YAML callback; the
+    token of ANY `Format` rendering with a base verb through `Scan` with the same verb) overwrites any receiver with the
+    identical value; a failing callback, a failing `Token`, and a text that is not an integer literal leave the
+    receiver untouched and report an error -/
+theorem load_into_receiver (r : U128) (q : I128) :
+    (∀ u : U128, U128.unmarshalYAML r (some u.toString) = (u, true)) ∧
+    (∀ i : I128, I128.unmarshalYAML q (some i.toString) = (i, true)) ∧
+    U128.unmarshalYAML r none = (r, false) ∧ I128.unmarshalYAML q none = (q, false) ∧
+    (∀ s, parseToBigInt s = none → U128.unmarshalYAML r (some s) = (r, false) ∧ I128.unmarshalYAML q (some s) = (q, false)) ∧
+    (∀ verb, U128.scanInto r none verb = (r, false) ∧ I128.scanInto q none verb = (q, false)) ∧
+    (∀ t verb, parseToBigInt (scanText t verb) = none →
+      U128.scanInto r (some t) verb = (r, false) ∧ I128.scanInto q (some t) verb = (q, false)) ∧
+    (∀ (st : FmtState) (ch : Char) (u : U128) (i : I128), IsBaseVerb ch →
+      ¬ (st.prec = some 0 ∧ u.toNat = 0) → ¬ (st.prec = some 0 ∧ i.toInt = 0) →
+      (∃ text, U128.format st ch u = some text ∧ U128.scanInto r (some (fmtToken text)) ch = (u, true)) ∧
+      (∃ text, I128.format st ch i = some text ∧ I128.scanInto q (some (fmtToken text)) ch = (i, true))) := by
+  refine ⟨?_, ?_, rfl, rfl, ?_, fun _ => ⟨rfl, rfl⟩, ?_, ?_⟩
+  · intro u; exact (unmarshal_roundtrip u r I128.zero q).1
+  · intro i; exact (unmarshal_roundtrip U128.zero r i q).2
+  · intro s hs
+    obtain ⟨a, b, _, _⟩ := unmarshal_error_keeps_receiver r q s hs
+    exact ⟨a, b⟩
+  · intro t verb h
+    unfold U128.scanInto I128.scanInto U128.scan I128.scan U128.fromString I128.fromString
+    simp only [h, Option.map_none]
+    exact ⟨trivial, trivial⟩
+  · intro st ch u i hch hu hi
+    obtain ⟨⟨t1, a1, b1⟩, ⟨t2, a2, b2⟩⟩ := format_reads_back st ch hch u i hu hi
+    refine ⟨⟨t1, a1, ?_⟩, ⟨t2, a2, ?_⟩⟩
+    · unfold U128.scanInto; simp only [b1]
+    · unfold I128.scanInto; simp only [b2]
+
+/-- `Float64()` of the `json.Number` interface is an error for every value (no float is ever emitted into JSON / YAML) -/
+example : U128.float64Method U128.max = none ∧ I128.float64Method I128.min = none := ⟨rfl, rfl⟩
+
+/-! ## the constants and tables the model copies by hand are the source's
+
+`Generated/C02Facts.lean` is deleted and regenerated by `vlib/C02.py` on every run from `xmath/num/uint128.go`,
+`int128.go` of the working tree and from `math/big/intconv.go` of the toolchain the harness is built with.  Every fact
+is optional (`none` / `[]` when a rewrite no longer spells it in the expected form — then it is simply not compared);
+`agrees*` = absent or equal, `sameChars` = equal as sets (the order of the letters in `strings.ContainsRune(letters, …)`
+does not matter). -/
+
+/-- `signBit`, `MaxUint128`, `MaxInt128`, `MinInt128`, the two unsigned bounds `FromBigInt` compares with, `maxBigUint128` and
+    the integer literals inside the `float64(…)` range constants (`Conv.constsComputed_uses_literals`) -/
+theorem source_constants_agree :
+    agreesNat C02Facts.signBit signBit64.toNat = true ∧
+    agreesPair C02Facts.MaxUint128 U128.max.hi U128.max.lo = true ∧
+    agreesPair C02Facts.MaxInt128 I128.max.hi I128.max.lo = true ∧
+    agreesPair C02Facts.MinInt128 I128.min.hi I128.min.lo = true ∧
+    agreesPair C02Facts.minInt128AsAbsUint128 minInt128AsAbsUint128.hi minInt128AsAbsUint128.lo = true ∧
+    agreesPair C02Facts.maxInt128AsUint128 maxInt128AsUint128.hi maxInt128AsUint128.lo = true ∧
+    agreesNat C02Facts.maxBigUint128 maxBigUint128 = true ∧
+    agreesInt C02Facts.maxRepresentableUint128Float litMaxU128 = true ∧
+    agreesInt C02Facts.minInt128Float litMinI128 = true ∧
+    agreesInt C02Facts.maxInt128Float litMaxI128 = true := by decide
+
+/-- every arm of the `switch verb` of `scanText` (verb, inserted prefix, letters that mark an existing prefix) is the arm
+    of the model's `verbPrefix`, and the verbs with an arm are exactly the model's six -/
+theorem source_scan_table_agrees :
+    C02Facts.scanVerbs.all scanArmAgrees = true ∧
+    (C02Facts.scanVerbs ≠ [] → sameChars (C02Facts.scanVerbs.map (·.1)) scanModelVerbs = true) := by decide
+
+/-- the tables of `(*big.Int).Format` in the toolchain's `math/big`: verb → base, `#` prefix per verb, the prefix `0o`
+    that `O` always gets — are those of the transcription `Conv.bigFormat`, for exactly the model's eight verbs -/
+theorem source_format_tables_agree :
+    C02Facts.fmtBases.all (fun e => verbBase e.1 == some e.2) = true ∧
+    (C02Facts.fmtBases ≠ [] → sameChars (C02Facts.fmtBases.map (·.1)) fmtModelVerbs = true) ∧
+    C02Facts.fmtSharp.all (fun e => e.1 == 'O' || fmtPrefix (sharpState true) e.1 == e.2) = true ∧
+    (C02Facts.fmtSharp ≠ [] → fmtModelVerbs.all (fun v =>
+      v == 'O' || (C02Facts.fmtSharp.map (·.1)).contains v || fmtPrefix (sharpState true) v == []) = true) ∧
+    C02Facts.fmtAlways.all (fun e => fmtPrefix (sharpState false) e.1 == e.2 && fmtPrefix (sharpState true) e.1 == e.2) = true ∧
+    (C02Facts.fmtAlways ≠ [] → fmtModelVerbs.all (fun v =>
+      (C02Facts.fmtAlways.map (·.1)).contains v || fmtPrefix (sharpState false) v == []) = true) := by decide
+
 /-! ## 64-bit constructors -/
 
 /-- `Uint128From64`, `Int128From64`, `Int128FromUint64` are exact -/
@@ -396,6 +695,14 @@ theorem asFloat64_exact_below_2_53_u (u : U128) (h : u.toNat < 2^53) :
 theorem asFloat64_exact_below_2_53_i (i : I128) (h1 : -(2^53) < i.toInt) (h2 : i.toInt < 2^53) :
     ValEq i.asFloat64 i.toInt ∧ ∃ m e, i.asFloat64 = .fin (decide (i.toInt < 0)) m e ∧ (m = 0 ↔ i.toInt = 0) :=
   I128.asFloat64_exact i h1 h2
+
+/-- the float64 rendering, where it is exact, loads back: `FromFloat64 (AsFloat64 x) = x` for every `Uint128` below 2^53
+    and every `Int128` of magnitude below 2^53 (above, `AsFloat64` rounds — `asFloat64_within_ulp_*` — and
+    the round trip cannot hold in general) -/
+theorem asFloat64_fromFloat64_below_2_53 (u : U128) (i : I128) (hu : u.toNat < 2^53)
+    (h1 : -(2^53) < i.toInt) (h2 : i.toInt < 2^53) :
+    U128.fromFloat64 u.asFloat64 = .ok u ∧ I128.fromFloat64 i.asFloat64 = .ok i :=
+  ⟨U128.fromFloat64_asFloat64 u hu, I128.fromFloat64_asFloat64 i h1 h2⟩
 
 /-- `Int128.AsFloat64` is the negation of the magnitude's conversion, so the sign and error clauses for `Int128`
     reduce to those of `Uint128.AsFloat64` applied to `|x|` (`AbsUint128`, proved to be the absolute value) -/
